@@ -1299,7 +1299,20 @@ class DateTime(datetime.datetime, Date):
         return cls.instance(dt, tz=tzinfo)
 
     def astimezone(self, tz: datetime.tzinfo | None = None) -> Self:
-        dt = super().astimezone(tz)
+        # Convert a native copy: tzinfo.fromutc() implementations (dateutil, pytz)
+        # do arithmetic on the value they are given and must not go through
+        # pendulum's own operators.
+        dt = datetime.datetime(
+            self.year,
+            self.month,
+            self.day,
+            self.hour,
+            self.minute,
+            self.second,
+            self.microsecond,
+            tzinfo=self.tzinfo,
+            fold=self.fold,
+        ).astimezone(tz)
 
         return self.__class__(
             dt.year,
